@@ -40,14 +40,14 @@ def run(prop, replay=None):
         v.add_tlc(r0, "MC: async batch path hands over the same (stream, event) pairs as per-event processing, all 2-stream programs")
     v.checker_cmds.append("tlc DispatchMC.tla")
     # GEN 1: every program of <= 2 streams, sampled event sequences, every split, every two-phase load point
-    r = tlc_cfg("_gen.cfg", base % (3, 2, 0, 5 if quick else 30, "TRUE") + "INVARIANT Emit\nCHECK_DEADLOCK FALSE\n", "DispatchMC", "gen_" + prop,
+    r = tlc_cfg("_gen.cfg", base % (3, 2, 0, 5 if quick else 15, "TRUE") + "INVARIANT Emit\nCHECK_DEADLOCK FALSE\n", "DispatchMC", "gen_" + prop,
                 workers=8 if quick else 14, timeout=3000, tlc_seed=vlib.seed())
     if r.error or r.violated:
         raise vlib.ToolError("GEN: %s %s %s" % (r.error, r.violated, r.stdout[-1500:]))
     cases = extract_cases(r.stdout)
     v.add_tlc(r, "GEN: all programs of <= 2 streams x sampled event sequences x all splits x all additive-load points")
     # GEN 2: sampled 3-stream programs, longer inputs
-    r = tlc_cfg("_gen.cfg", base % (4, 3, 12 if quick else 250, 6 if quick else 40, "FALSE") + "INVARIANT Emit\nCHECK_DEADLOCK FALSE\n", "DispatchMC", "gen3_" + prop,
+    r = tlc_cfg("_gen.cfg", base % (4, 3, 12 if quick else 60, 6 if quick else 15, "FALSE") + "INVARIANT Emit\nCHECK_DEADLOCK FALSE\n", "DispatchMC", "gen3_" + prop,
                 workers=8 if quick else 14, timeout=3000, tlc_seed=vlib.seed())
     if r.error or r.violated:
         raise vlib.ToolError("GEN3: %s %s %s" % (r.error, r.violated, r.stdout[-1500:]))
